@@ -947,7 +947,10 @@ def r7(R):
             a2 = pyfacts.resolved_src(rd, c_.args[2], 2, keep=(a0,)).replace(" ", "")
             if re.match(r"^\(?\w+\[%s\]\[:\]\)?$" % re.escape(a0), a1) and ("[%s].attrs" % a0) in a2:
                 sp_ok = True
-    R.check("for pxname, px in frame.pixels.items()" in uw and "group[pxname][:] = px" in uw and sp_ok, "C18.R7", SPF,
+    # the writer's loop in the spelling this rule reads; another spelling (keys + lookup, an index loop) is 'cannot decide', not a violation
+    R.shape("for pxname, px in frame.pixels.items()" in uw and "group[pxname][:] = px" in uw, "C18.R7", SPF, "sparse_frame.to_hdf_group",
+            "the loop 'for pxname, px in frame.pixels.items(): group[pxname][:] = px'")
+    R.check(sp_ok, "C18.R7", SPF,
             w.lineno, "sparse_frame.to_hdf_group", "every pixel array written and restored by name", "pixel arrays are not round-tripped by name")
     R.check("dict(group[pxname].attrs)" in ur, "C18.R7", SPF, rd.lineno, "from_hdf_group", "per-array metadata read from attrs", "metadata not restored")
     # metadata written through attrs.update / item assignment
